@@ -258,6 +258,27 @@ def run(case):
         case.check(a6.shape == (2,) + shape and np.allclose(a6[0], a0[n - 1], atol=1e-6 * amp)
                    and np.allclose(a6[1], a0[0], atol=1e-6 * amp), "load([n-1, 0]) returns the wrong rows")
         case.check(tuple(loader.construct_dask().shape) == a0.shape, "construct_dask declares a wrong shape")
+        # a batch loader over two registrations of the tomogram must load the same sub-volumes
+        from acryo import BatchLoader
+
+        k = max(1, n // 2)
+        bl = BatchLoader(order=order, scale=scale, output_shape=shape, corner_safe=p["corner_safe"])
+        bl.add_tomogram(img, mole.subset(slice(0, k)))
+        if n > k:
+            bl.add_tomogram(A if p["dask"] else img, mole.subset(slice(k, n)))
+        ab = np.asarray(bl.asnumpy())
+        case.check(ab.shape == a0.shape and float(np.abs(ab - a0).max()) <= TOLERANCES["entry_points_rel"] * amp,
+                   "BatchLoader loads different sub-volumes than the single loader (same order/scale/corner_safe)",
+                   None, corner_safe=p["corner_safe"], shape=shape)
+        sub0 = np.asarray(bl.loaders[0].asnumpy())
+        # (loaders[i] goes through a data-frame round trip: orientations are float32 rotation vectors)
+        # and samples exactly on the crop border may flip to the fill value: only the inscribed ball is judged)
+        cc = (np.asarray(shape, float) - 1) / 2
+        kk = np.stack(np.meshgrid(*[np.arange(s_, dtype=float) for s_ in shape], indexing="ij"), 0)
+        ball = np.sqrt(((kk - cc[:, None, None, None]) ** 2).sum(0)) <= min(shape) / 2 - 0.5
+        dd = np.abs(sub0 - a0[:k])[:, ball]
+        ok_rt = (float(dd.max()) <= 5e-3 * amp) if order else (float(np.mean(dd > 1e-6 * amp)) < 0.01)
+        case.check(ok_rt, "BatchLoader.loaders[i] disagrees with the batch itself", None, err=float(dd.max()))
     for v in instr.drain():
         case.fail(f"contract {v['contract']}: {v['what']}", "load.empty-window-nan"
                   if v["detail"].get("src_shape") and 0 in v["detail"]["src_shape"] else None, **v["detail"])
